@@ -44,8 +44,36 @@ def big_axis(rng, count):
     return ax
 
 
+MODEL = {}
+
+
+def model_axes(ctx, sgz, r, il, xl, desc, what):
+    """K: Model/Axes vs the real header writer and reader: stored words == packI32 of the source origin/increment, and the
+    reader's axis == decodeAxis of the stored words (unsigned read, int64 arithmetic, wrap to int32)"""
+    m = MODEL.get('m')
+    if m is None or r.is_2d:
+        return
+    import struct
+    raw = open(sgz, 'rb').read(64)
+    xl0, il0, dxl, dil = struct.unpack('<I', raw[20:24])[0], struct.unpack('<I', raw[24:28])[0], \
+        struct.unpack('<I', raw[32:36])[0], struct.unpack('<I', raw[36:40])[0]
+    for name, ax, su, du, got in (('il', il, il0, dil, r.ilines), ('xl', xl, xl0, dxl, r.xlines)):
+        ctx.stats['corr_requests'] += 1
+        dec = m.ask(f'axes dec {su} {du} {len(ax)}')
+        if dec != ' '.join(str(int(v)) for v in got):
+            ctx.corr_fail('Model.Axes/decodeAxis', f'axes dec {su} {du} {len(ax)}', dec[:120],
+                          ' '.join(str(int(v)) for v in got)[:120], dict(desc, what=what, axis=name))
+        if len(ax) > 1:
+            for v, w in ((ax[0], su), (ax[1] - ax[0], du)):
+                ctx.stats['corr_requests'] += 1
+                pk = m.ask(f'axes pack {int(v)}')
+                if pk != str(w):
+                    ctx.corr_fail('Model.Axes/packI32', f'axes pack {int(v)}', pk, str(w), dict(desc, what=what, axis=name))
+
+
 def check_axes(ctx, sgz, il, xl, samples, tracecount, desc, what='converted file'):
     with SgzReader(sgz) as r:
+        model_axes(ctx, sgz, r, il, xl, desc, what)
         probs = []
         if list(map(int, r.ilines)) != list(il):
             probs.append(f'ilines {list(map(int, r.ilines))[:3]}.. != source {list(il)[:3]}..')
@@ -169,6 +197,14 @@ def segy_axes(ctx, rng, k):
 
 
 def run(ctx):
+    MODEL['m'] = core.Model()
+    try:
+        run_(ctx)
+    finally:
+        MODEL.pop('m').close()
+
+
+def run_(ctx):
     rng = gen.rng_for(ctx.seed, 'c05')
     for k in range(60 if ctx.quick else 1500):
         numpy_axes(ctx, rng, k)
